@@ -37,7 +37,10 @@ CHECKS = {
         text="TimerWhileWaiting (invariant), TimeoutAnswers and TimeoutHarmless (action properties) model-checked with the timer "
              "firing before/after every data arrival, completion and disconnect; replayed under the virtual clock on the real "
              "protocol (a pending loop timer is the observable, no private attribute is read).",
-        note="Trusted: as C01; virtual-time loop replaces only the clock and the blocking wait of asyncio's SelectorEventLoop."),
+        note="Trusted: as C01; virtual-time loop replaces only the clock and the blocking wait of asyncio's SelectorEventLoop. "
+             "The handshake phase is decided by the TlsPump replay (HsTimerWhileHandshaking, SilentPeerDropped) and by live "
+             "sockets on both backends with shortened timeouts (stall before / inside the ClientHello, after it, after the "
+             "handshake, mid-line, mid-upload): closed within the deadline, with 40 once a TLS session exists."),
     "C10": dict(
         engine="RateLimit", design="8 C10, 5.3, Appendix C",
         text="TLC checks CleanupInvisible/SameDecision/Window (invariants) and Isolation (action property) over every arrival "
@@ -139,6 +142,18 @@ CHECKS = {
              "bytes bodies, static files, slow and bursty readers, byte-identical streams on both backends.",
         note="Trusted: TLC; the stdlib ssl client as TLS peer; byte comparison is the driver's oracle (the model knows lengths and "
              "order, not byte values)."),
+    "C20": dict(
+        engine="TlsVersion", design="8 C20, 5.8",
+        text="TLC enumerates (construction path x peer offer) from TlsVersion.tla - the four ways start_server builds its TLS "
+             "layer (stdlib / PyOpenSSL x supplied / auto-generated certificate) x {TLS 1.0..1.3, plaintext request, random "
+             "bytes} and the client's TOFU / CA contexts x server maximum version - with NoOldVersion, PlaintextGetsNothing, "
+             "ModernAccepted; every case is realised with live sockets against the REAL start_server and permissive peers "
+             "(security level 0 on the peer and, applied by the harness, on the context under test, so that only the "
+             "implementation's own minimum version can refuse); control peers prove TLS 1.0/1.1 negotiable on both OpenSSL "
+             "builds; the plaintext path of the PyOpenSSL pump is additionally decided by the TlsPump replay "
+             "(InnerOnlyAfterHandshake, NoPlainBeforeTls).",
+        note="The model is thin (one negotiation rule per construction path); the assurance is the exhaustive configuration "
+             "replay. SSLv3 cannot be offered in this sandbox (absent from both OpenSSL builds)."),
 }
 
 ORDER = ["C01", "C02", "C03", "C04", "C05", "C06", "C07", "C08", "C09", "C10", "C11", "C12", "C13", "C14", "C15",
